@@ -58,7 +58,9 @@ CLAIMED = {
             "parameters and interrupts (MemoryError / KeyboardInterrupt from a sys.settrace injector) at line events inside compute / sf / pdf / "
             "set_prms; sweep tasks enumerate every crash point of one operation and then recompute. After every compute() that returns, all "
             "results (stock, inflow, outflow, cohort tables, sf, pdf) must be bitwise equal to those of a freshly built object holding copies of "
-            "the current inputs, and a second compute() must change nothing. Crash points of sampled operations are enumerated, histories sampled.",
+            "the current inputs, and a second compute() must change nothing. Parameters are set and read through the handle the caller kept of the "
+            "lifetime model it handed to the stock. 30 % of the runs execute in pristine forked processes and compare every compute with the same "
+            "inputs computed in another pristine process (module / class level state). Crash points of sampled operations are enumerated, histories sampled.",
             "Trusted: the fresh object runs the same real code (history independence needs no independent DSM arithmetic). Steps that raise or "
             "are interrupted are not judged; the next successful compute is. Crash points are Python line boundaries in flodym's own files.",
             "5.3"),
@@ -69,7 +71,9 @@ CLAIMED = {
             "single-item dims; DataFrame, CSV text on a scratch disk read by pd.read_csv, CSVParameterReader, ExcelParameterReader; from_df or "
             "set_values_from_df) with only benign perturbations (row / column permutations). The import must return exactly the exported array; "
             "to_df must list every entry once (sparse: exactly the non-zero ones); whenever an import returns, every entry comes from the unique "
-            "row carrying its labels. Includes worlds with one dimension of > 32767 items. Partial fit: the only genuinely simulated parts are the "
+            "row carrying its labels. Includes worlds with one dimension of > 32767 items, counter dimensions 0..n-1, nested item sets, unnamed "
+            "index levels and 'Unnamed: k' columns, a named columns axis, infinite values, values that repeat a dimension's labels, and 30 % "
+            "safety-only runs with harmful record faults judged by the last sentence of the property alone. Partial fit: the only genuinely simulated parts are the "
             "file media and the permutation 'faults'; the rest is the fault-free baseline of the C12 machine.",
             "Trusted: the frame model and expectation() in engines/iochan.py. Layouts are generated only inside what the property promises "
             "(values cannot be mistaken for items; pairwise different item sets; items-only headers with dimension columns in front; untyped int "
@@ -78,8 +82,9 @@ CLAIMED = {
     "C12": ("iochan", "fault_enumeration",
             "deterministic simulation with fault injection on the import channel: stored-record faults, column faults, CSV truncation, OSError on open, settrace interrupts; per-world enumeration of every single fault",
             "Same machine as C11 with harmful faults between producer and consumer: drop / duplicate (same or other value) / relabel to unknown or "
-            "to another known item / blank value / blank label rows; drop a dimension column, add an unmatched value column, rename a wide item "
-            "column; truncate the CSV file at a line boundary or mid-line; OSError on open (through pandas.io.common.open); interrupts inside "
+            "to another known item / blank value / blank label rows / a whole category missing; drop a dimension column, add an unmatched value "
+            "column, rename a wide item column, a second column for one item under a differently written head; a reader object that has read the "
+            "path before, when the file still held the intact table; truncate the CSV file at a line boundary or mid-line; OSError on open (through pandas.io.common.open); interrupts inside "
             "set_values_from_df; all four flag combinations. The expected outcome (must raise / lenient result / either-but-never-wrong-data) is "
             "derived from the harness's frame model after faults; a refused import must leave the sentinel-filled target bitwise unchanged; after "
             "the fault the intact table must import into the same target. 'enum' tasks enumerate every single record/column fault of a sampled "
@@ -94,7 +99,8 @@ CLAIMED = {
             "without header, named sheets or first sheet with a decoy, permuted dict orders), built through direct helpers, from_data_reader, "
             "from_csv and from_excel. Fault-free builds are compared field by field with the definition; every injected definition or file fault "
             "(undefined dimension / process, missing or unused lifetime model, time not first, sysenv not first, 2-D dimension file, missing file or "
-            "sheet, dropped / duplicated parameter row) must be refused. Partial fit: a classmethod that raises returns nothing, so the fault "
+            "sheet, dropped / duplicated parameter row) must be refused. Every system is built a second time from the same definition objects; on "
+            "the file paths through reader objects the caller kept, after the files were rewritten in place with other labels. Partial fit: a classmethod that raises returns nothing, so the fault "
             "dimension is thin; what the simulation adds is generated programs and the file boundary.",
             "Trusted: sysworld.py (writers of the files) and _compare_system. Item tokens are chosen to survive pandas' CSV type/NA inference.",
             "5.5"),
@@ -119,7 +125,8 @@ CLAIMED = {
             "(ENOSPC / EIO / EACCES), makedirs fails, interrupts. Oracles: the system equals its snapshot after every export; a fault-free export "
             "holds every flow / stock / dimension / process / endpoint, reads back with from_df (pandas form, CSV files) into identical arrays, one "
             "file per flow and per exported stock quantity and nothing else new; an export whose write failed must not return normally; repeating "
-            "the export into the same location afterwards succeeds. 'iosweep' tasks fault every open() index x a grid of byte budgets.",
+            "the export into the same location afterwards succeeds; flows and stocks exported into one directory leave each other's files alone. "
+            "'iosweep' tasks fault every open() index x a grid of byte budgets.",
             "Trusted: the failing-file wrappers and _judge_export. Content of files left by a failed export is not judged. 0-dimensional arrays are "
             "only required to hold their value (they have no labels to read back by).",
             "5.5"),
@@ -187,7 +194,8 @@ def main():
         "not_applicable": na,
         "notes": "Technique family: deterministic simulation with fault injection. ./check re-executes itself with PYTHONHASHSEED=0, imports flodym from /repo's working tree, "
                  "derives every choice from VERIF_SEED, writes /verif/evidence/<id>.json, reports VIOLATION lines with minimised replay files under /verif/replays/. "
-                 "Exit 2 = harness error (never a verdict). fix: commits in /repo are listed in known_findings.json.",
+                 "Exit 2 = harness error (never a verdict). fix: commits in /repo are listed in known_findings.json. A violation that does not reproduce from its own "
+                 "operation list but does from the runs its worker process executed before it is reported with a replay file of format 'process-history'.",
     }
     path = os.path.join(VERIF, "MANIFEST.json")
     with open(path, "w") as f:
